@@ -76,7 +76,19 @@ def concrete_values(eng):
 
 # ---------------------------------------------------------------------------
 def nan(x):
-    return isinstance(x, float) and x != x
+    import numpy as np
+
+    return isinstance(x, (float, np.floating)) and bool(x != x)
+
+
+def f32eq(v, d):
+    """durations_matrix_array is a float32 array by design: in concrete runs with large values the entry is the float32
+    nearest to the duration; symbolically (numpy facade, exact objects) it is the duration."""
+    import numpy as np
+
+    if isinstance(d, int) and not isinstance(d, bool) and isinstance(v, (float, np.floating)):
+        return float(v) == float(np.float32(d))
+    return veq(v, d)
 
 
 def views_harness(eng, sp, inst, desc):
@@ -139,7 +151,7 @@ def views_harness(eng, sp, inst, desc):
                     if nan(v):
                         eng.fail(key + "/durations_matrix_array-nan-inside")
                     else:
-                        items.append((veq(v, desc.dur[desc.jobs[j][p]]), key + "/durations_matrix_array"))
+                        items.append((f32eq(v, desc.dur[desc.jobs[j][p]]), key + "/durations_matrix_array"))
                 elif not nan(v):
                     eng.fail(key + "/durations_matrix_array-padding-not-nan-at-the-end", f"[{j},{p}]={v}")
     ma = inst.machines_matrix_array
@@ -505,3 +517,8 @@ def harness(eng, sp):
     inst, desc = D.build_instance(eng, sp["shape"], sp["machines"], dmin=0)
     {"views": views_harness, "schedules": schedules_harness, "sequences": sequences_harness,
      "immutable": immutable_harness}[sp["mode"]](eng, sp, inst, desc)
+
+
+def big_models(sp):
+    # solver-chosen large models (>= 2**24+1) of the path conditions, run on the un-instrumented library
+    return True
